@@ -542,6 +542,9 @@ def rule_bind_query_params(ctx, R):
             tv = test[0][1] if test else None
             expect_push = (enabled is False) or (enabled is True and tv is True)
             wellformed = (enabled is False and not test) or (enabled is True and len(test) == 1)
+            if enabled is False:
+                R.check(len(pushes) == 1 and not test, "C16-R4", key + "|disabled-%s-binds-everywhere" % vname, "a cfg-disabled %s parameter binds to every archetype without consulting it" % vname,
+                        "a cfg-disabled %s parameter is still matched against the archetype (pushes=%d, tests=%d)" % (vname, len(pushes), len(test)), where_of(f), fn=f.key)
             R.check(wellformed and (len(pushes) == 1) == expect_push and ends_inner, "C05-R1", key + "|%s(enabled=%s,match=%s)" % (vname, enabled, tv),
                     "%s binds iff !cfg_enabled or %s" % (vname, "archetype has the component" if vname == "Component" else "archetype is the named one"),
                     "%s arm under %s: pushes=%d; expected push iff (!is_cfg_enabled || match)" % (vname, describe(ats[1:]), len(pushes)), where_of(f), fn=f.key)
